@@ -7,7 +7,8 @@
 From Coq Require Import String List NArith ZArith Bool.
 From Coq Require Import Floats.SpecFloat.
 From VRL Require Import Base.Bytes Base.Value Base.Lit Model.DdNode Model.DdSearch
-  Proofs.DdSearchProofs Proofs.DdSearchNum Proofs.DdSearchRT Proofs.DdSearchQuery.
+  Proofs.DdSearchProofs Proofs.DdSearchNum Proofs.DdSearchRT Proofs.DdSearchWild Proofs.DdSearchQuery
+  Proofs.DdSearchMulti.
 Import ListNotations.
 Local Open Scope string_scope.
 Local Open Scope list_scope.
@@ -66,6 +67,13 @@ Theorem C30_value_range : forall b lo hi rest,
 Proof. exact parse_value_range. Qed.
 Print Assumptions C30_value_range.
 
+(* a wildcard text X g0 Y (X without wildcard characters, g0 the first `*` / `?`, see wild_parts) is read back
+   by TERM_GLOB, every earlier alternative of `value` failing *)
+Theorem C30_value_wild : forall X g0 Y rest, wild_parts X g0 Y -> term_end rest = true ->
+  parse_value ((X ++ g0 :: Y) ++ rest) = Some (PVGlob (X ++ g0 :: Y), rest).
+Proof. exact parse_value_wild. Qed.
+Print Assumptions C30_value_wild.
+
 (* --- visit_query: an AND list and an OR list of clauses fold into the Boolean node --- *)
 Theorem C30_fold_and : forall df x y ns,
   fold_query df (items_of x ++ list_items false (y :: ns)) = VOk (NBool BAnd (x :: y :: ns)).
@@ -78,9 +86,10 @@ Proof. exact fold_or_list. Qed.
 Print Assumptions C30_fold_or.
 
 (* --- the round trip of whole trees (by induction over the tree: negations, AND / OR lists with their
-   parentheses, and every leaf except wildcards).
-   safe fok n: every attribute is printable raw (attr_ok), term / prefix values satisfy term_ok, string bounds
-   are not re-read as numbers, quoted strings or `*`, range brackets agree, float bounds satisfy fok, lists have
+   parentheses, and every kind of leaf).
+   safe fok n: every attribute is printable raw (attr_ok), term / prefix values satisfy term_ok, wildcards
+   satisfy wild_ok, string bounds are not re-read as numbers, quoted strings or `*`, range brackets agree, float
+   bounds satisfy fok, lists have
    at least two items, no NOT NOT directly inside an AND, MatchNoDocs only as the whole query, no NOT *:* directly
    under a NOT.  fdisp / fok: the Display text of the floats in fok is assumed to read back (num_text_ok). --- *)
 Theorem C30_node_roundtrip : forall (fdisp : spec_float -> bytes) (fok : spec_float -> bool),
@@ -107,10 +116,16 @@ Theorem C30_text_roundtrip : forall (fdisp : spec_float -> bytes) (fok : spec_fl
 Proof. exact text_roundtrip. Qed.
 Print Assumptions C30_text_roundtrip.
 
+(* a bare multi-word term as the whole query ("a b c": one multiterm, joined by single blanks) *)
+Theorem C30_multiterm_roundtrip : forall (fdisp : spec_float -> bytes) (w : bytes) (ws : list bytes),
+  forallb term_ok (w :: ws) = true ->
+  all_whitespace (to_lucene fdisp (NTerm DEFAULT_FIELD (join_sp (w :: ws)))) = false ->
+  parse (to_lucene fdisp (NTerm DEFAULT_FIELD (join_sp (w :: ws)))) = PRNode (NTerm DEFAULT_FIELD (join_sp (w :: ws))).
+Proof. exact multiterm_roundtrip. Qed.
+Print Assumptions C30_multiterm_roundtrip.
+
 (* the full statement `forall q n, parse q = PRNode n -> parse (to_lucene n) = parse q` is false on the
-   model and on the implementation: see the witnesses below.  Wildcard leaves (NWild) and a bare multi-word
-   term as the whole query ("a b c") are not covered by `safe`; they round-trip on every generated case but
-   are not proved: C30_node_roundtrip is partial in that respect. *)
+   model and on the implementation: see the witnesses below, one per class of trees outside `safe`. *)
 
 (* non-vacuity: a nested tree with every provable kind of leaf; float Display given for 1.5 only *)
 Definition fd15 (f : spec_float) : bytes := bs "1.5".
@@ -138,6 +153,7 @@ Example C30_roundtrip_nonvacuous :
                           NNot (NBool BOr [NPrefix (bs "@http.url") (bs "/api/v1"); NExists (bs "@err")])];
               NRange (bs "@d") (CFloat (f64_of_bits 0x3ff8000000000000)) true (CInt 10) true;
               NNot (NNot (NCmp (bs "host") Gte (CStr (bs "web-1"))));
+              NBool BAnd [NWild (bs "_default_") (bs "err*r?"); NWild (bs "@k") (bs "*"); NWild (bs "@k") (bs "a?c")];
               NRange (bs "_default_") CUnb false (CStr (bs "zz")) false] in
   safe fok15 n = true /\ is_not_all n = false /\ all_whitespace (to_lucene fd15 n) = false
   /\ parse (to_lucene fd15 n) = PRNode n.
